@@ -246,6 +246,52 @@ def stopTests (c : Cfg α) (s : St α) (f0Old : α) : St α × Bool :=
     ({ s with task := .ftol, success := true, warnflag := 0 }, true)
   else (s, false)
 
+/-- a failed line search (main.py:555-568): abort if the memory is already empty, otherwise
+reset it and go on -/
+def iterFail (s : St α) : St α × Flow :=
+  if s.X.length = 1 then
+    ({ s with task := .abnormal, warnflag := 2, success := false }, .brk)
+  else
+    ({ s with task := .restartLnsrch, X := [lastD s.X], G := [lastD s.G], mats := none,
+              nit := s.nit + 1 }, .next)
+
+/-- stop tests, preceded by the user's redefinition of the objective when there is one
+(main.py:577-598). Returns the state and whether to leave the loop. -/
+def afterEval (u : User α ε) (c : Cfg α) (s : St α) (f0Old : α) : Except ε (St α × Bool) :=
+  if c.hasUpdate then do
+    let s := s.logCall .update s.x
+    let r ← u.update { x := s.x, f0 := s.f, f0Old := f0Old, grad := s.g, X := s.X, G := s.G }
+    let s := { s with f := r.f0, g := r.grad, G := r.G }
+    let (s, stop) := stopTests c s r.f0Old
+    if stop then pure (s, true)
+    else
+      let (X, G) := filterWolfe s.X s.G c.epsSY
+      pure ({ s with X := X, G := G }, false)
+  else
+    pure (stopTests c s f0Old)
+
+/-- the user callback (main.py:616-636) -/
+def doCallback (u : User α ε) (c : Cfg α) (s : St α) : Except ε (St α) :=
+  if c.hasCallback ∧ !s.success then do
+    let cb := { s.result with nit := s.nit + 1 }
+    let s := { (s.logCall .callback s.x) with cbStates := s.cbStates ++ [cb] }
+    let stopNow ← u.callback cb
+    pure (if stopNow then { s with task := .userCallback, success := true } else s)
+  else pure s
+
+/-- an accepted step (main.py:570-645) -/
+def iterStep (u : User α ε) (c : Cfg α) (s : St α) (d : Vec α) (stp f0Old : α) :
+    Except ε (St α × Flow) := do
+  let x := clip (vadd s.x (smul stp d)) c.lb c.ub
+  let (sf, f, g) ← s.sf.funAndGrad u.toSFUser x
+  let s := { s with x := x, f := f, g := g, sf := sf }
+  let (s, stop) ← afterEval u c s f0Old
+  if stop then pure (s, .brk) else
+  let (X, G, mats, _) := updateMats s.x s.g s.X s.G c.maxcor s.mats c.epsSY
+  let s := { s with X := X, G := G, mats := mats }
+  let s ← doCallback u c s
+  pure ({ s with nit := s.nit + 1 }, .next)
+
 /-- one pass of the `while` loop body (main.py:498-645) -/
 def iterBody (u : User α ε) (o : Oracles α δ) (c : Cfg α) (s : St α) : Except ε (St α × Flow) := do
   let f0Old := s.f
@@ -256,40 +302,8 @@ def iterBody (u : User α ε) (o : Oracles α δ) (c : Cfg α) (s : St α) : Exc
     (min c.maxls (c.maxfun - s.sf.nfev)) s.olog
   let s := { s with sf := sf, olog := olog }
   match stp? with
-  | none =>
-    if s.X.length = 1 then
-      pure ({ s with task := .abnormal, warnflag := 2, success := false }, .brk)
-    else
-      pure ({ s with task := .restartLnsrch, X := [lastD s.X], G := [lastD s.G], mats := none,
-                     nit := s.nit + 1 }, .next)
-  | some stp =>
-    let x := clip (vadd s.x (smul stp d)) c.lb c.ub
-    let (sf, f, g) ← s.sf.funAndGrad u.toSFUser x
-    let s := { s with x := x, f := f, g := g, sf := sf }
-    let (s, _, stop) ←
-      if c.hasUpdate then do
-        let s := s.logCall .update s.x
-        let r ← u.update { x := s.x, f0 := s.f, f0Old := f0Old, grad := s.g, X := s.X, G := s.G }
-        let s := { s with f := r.f0, g := r.grad, G := r.G }
-        let (s, stop) := stopTests c s r.f0Old
-        if stop then pure (s, r.f0Old, true)
-        else
-          let (X, G) := filterWolfe s.X s.G c.epsSY
-          pure ({ s with X := X, G := G }, r.f0Old, false)
-      else
-        let (s, stop) := stopTests c s f0Old
-        pure (s, f0Old, stop)
-    if stop then pure (s, .brk) else
-    let (X, G, mats, _) := updateMats s.x s.g s.X s.G c.maxcor s.mats c.epsSY
-    let s := { s with X := X, G := G, mats := mats }
-    let s ←
-      if c.hasCallback ∧ !s.success then do
-        let cb := { s.result with nit := s.nit + 1 }
-        let s := { (s.logCall .callback s.x) with cbStates := s.cbStates ++ [cb] }
-        let stopNow ← u.callback cb
-        pure (if stopNow then { s with task := .userCallback, success := true } else s)
-      else pure s
-    pure ({ s with nit := s.nit + 1 }, .next)
+  | none => pure (iterFail s)
+  | some stp => iterStep u c s d stp f0Old
 
 /-- the loop guard (main.py:492-497) -/
 def guard (c : Cfg α) (s : St α) : Bool :=
@@ -334,7 +348,7 @@ def minimize (u : User α ε) (o : Oracles α δ) (c : Cfg α) : Except ε (Resu
   let (X, G) := match c.checkpoint with
     | none => (([] : List (Vec α)), ([] : List (Vec α)))
     | some ck => restoreXG x ck.jac ck.sk ck.yk c.maxcor
-  let sf : SF α := SF.new c.mode x
+  let sf : SF α := SF.new c.mode x c.lb c.ub
   let sf := match c.checkpoint with
     | none => sf
     | some ck => { sf with nfev := ck.nfev, ngev := ck.njev }
@@ -353,7 +367,7 @@ def minimize (u : User α ε) (o : Oracles α δ) (c : Cfg α) : Except ε (Resu
   if targetReached (f0 / sf.scale) ftarget then
     let s := { s with task := .target, success := true, warnflag := 0 }
     match c.checkpoint with
-    | some ck => pure (ck, s)
+    | some ck => pure ({ ck with msg := .target, success := true, status := 0 }, s)
     | none =>
       let s := { s with X := [x], G := [x.map fun _ => 0], g := x.map fun _ => 0 }
       pure (s.result, s)
